@@ -46,10 +46,10 @@ def decNat (k : Nat) (bs : Bytes) : Option (Nat × Bytes) :=
 /-! ### numbers -/
 
 /-- the unsigned image of `n` on `t.bytes` bytes (two's complement for the signed types) -/
-def numRepr (t : NumTy) (n : Int) : Nat := (n % (256 ^ t.bytes : Nat)).toNat
+def numRepr (t : NumTy) (n : Int) : Nat := (n % (t.modulus : Int)).toNat
 
 def numOfRepr (t : NumTy) (u : Nat) : Int :=
-  if t.signed && decide (256 ^ t.bytes ≤ 2 * u) then (u : Int) - (256 ^ t.bytes : Nat) else u
+  if t.signed = true ∧ t.modulus ≤ 2 * u then (u : Int) - (t.modulus : Int) else u
 
 def encNum (t : NumTy) (n : Int) : Bytes := leBytes t.bytes (numRepr t n)
 
